@@ -141,7 +141,7 @@ def run(ctx):
                 cases.append({"id": "s%d.%s" % (i, use), "kind": "parse", "honest": True, "accepted": acc, "mut": "single", "payload": B(payload), "result": B(base64.b64decode(got[1].text_b64)) if acc else []})
     byid = {c["id"]: c for c in cases}
     ctx.sample({k: v for k, v in cases[0].items() if k in ("id", "kind", "data")})
-    bad = ctx.validate("bcur/C20Cases.tla", [{k: v for k, v in c.items() if k != "mut"} for c in cases], "C20Cases.cfg", timeout=3000, per_shard_min=30)
+    bad = ctx.validate("bcur/C20Cases.tla", [{k: v for k, v in c.items() if k != "mut"} for c in cases], "C20Cases.cfg", timeout=7200, per_shard_min=30)
     for cid, why in bad.items():
         c = byid[cid]
         ctx.violation("%s:%s%s" % (c["kind"], why, ":" + c["mut"] if "mut" in c else ""), "%s case %s: %s" % (c["kind"], cid, why),
